@@ -119,8 +119,12 @@ func (w *Writer) Add(term string, nontrivial bool, tags ...string) {
 			w.nontriv++
 		}
 	}
-	if len(w.samples) < 3 && nontrivial && len(term) < 1500 {
-		w.samples = append(w.samples, term)
+	if len(w.samples) < 3 && nontrivial {
+		t := term
+		if len(t) > 1200 {
+			t = t[:1200] + " ..."
+		}
+		w.samples = append(w.samples, t)
 	}
 }
 
@@ -153,7 +157,7 @@ func (w *Writer) Flush() error {
 	}
 	meta := map[string]interface{}{
 		"stream": w.Stream, "evaluations": len(w.cases), "distinct": len(w.seen),
-		"distinct_nontrivial": w.nontriv, "distribution": dist, "samples": w.samples, "shards": n,
+		"distinct_nontrivial": w.nontriv, "distribution": dist, "samples": append([]string{}, w.samples...), "shards": n,
 	}
 	for k, v := range w.Extra {
 		meta[k] = v
